@@ -2,6 +2,26 @@
 PROPS = ["C%02d" % i for i in range(1, 21)]
 
 # id -> dict(level_text, level_note, technique, design_ref)  (filled as checks are built and self-tested)
-CLAIMED = {}
+_DEC_NOTE = ("Trusted: z3/cvc5; pyvc's encoding of the Python subset (ints mathematical, floor division, shifts/masks by constants as div/mod, "
+             "sequences as array+length); the buffered-stream contract (read(k) = min(k, remaining) bytes, files and pipes alike), latin-1 codec, "
+             "decimal str.format; nonlinear facts only through separately proved lemmas; the sidecar's transcription of the formats. "
+             "Not covered: see DESIGN.md per property; units not yet under contract are listed in the evidence.")
+CLAIMED = {
+    "C16": dict(level_text="Deductive proof, for all inputs and all loop iterations, that the real decoder functions (read from /repo on every run) "
+                "write exactly header + every pixel of a well-formed uncompressed file: per-function contracts, loop invariants over the "
+                "output array, callee contracts for getbit/pack/iotostr/strtoio/dump; obligations discharged by z3 (goal-directed instantiation, "
+                "cvc5 fallback). Currently under contract: HRS, uncompressed MGE (RGB and composite); other layouts are being added.",
+                level_note=_DEC_NOTE, technique="contract-based deductive verification: ast->VC generation with loop invariants, z3/cvc5"),
+    "C17": dict(level_text="Deductive proof that for every valid encoding (defined by a ghost reference decoder that follows the format's token "
+                "semantics) the real decoder's output equals the rendering of the ghost image: run-length MGE, escape-coded RAT, VEF unsquash. "
+                "All run lengths, splits, literals equal to the escape byte are inside the quantifier.",
+                level_note=_DEC_NOTE, technique="contract-based deductive verification with ghost reference decoders, z3/cvc5"),
+    "C18": dict(level_text="Deductive proof of header digits and exact sample count of the output for all inputs and all option values the validators "
+                "admit (HRS, MAX incl. derived height and Newsroom header, PIX, MGE, RAT), with skip handled as an offset into the same input.",
+                level_note=_DEC_NOTE, technique="contract-based deductive verification: ast->VC generation with loop invariants, z3/cvc5"),
+    "C19": dict(level_text="Deductive proof, for every byte string, that each decoder terminates (variants for every while loop) and that a normal "
+                "return implies a complete image of the announced size; exceptional exits are enumerated by the VC generator (HRS, RAT, MGE, MAX, PIX, unsquash).",
+                level_note=_DEC_NOTE, technique="contract-based deductive verification with exceptional postconditions and variants, z3/cvc5"),
+}
 
 NOT_REACHED = "not reached yet by the contracts built so far (DESIGN.md section 8, fall-back rule); no other technique is substituted"
